@@ -1,6 +1,6 @@
 (* Correspondence entry point: one op name + arguments -> canonical observation.
    Extracted to OCaml (Extract.v) and driven by ocaml/driver.ml. *)
-From Ufw Require Import Base.Val Base.Bits Base.Errno Model.Crc Model.ByteBuffer Model.Endpoints Model.Varint.
+From Ufw Require Import Base.Val Base.Bits Base.Errno Model.Crc Model.ByteBuffer Model.Endpoints Model.Varint Model.Ring.
 Local Open Scope string_scope.
 Local Open Scope N_scope.
 
@@ -108,10 +108,30 @@ Definition run_vi (op : string) (a : list val) : list val :=
     end
   else [VS "unknown-op"].
 
+(* ---------------- ring buffer (C19) ---------------- *)
+Fixpoint pairs (l : list N) : list (N * N) :=
+  match l with a :: b :: r => (a, b) :: pairs r | _ => [] end.
+Definition rop_decode (w : N) (p : N * N) : rop :=
+  let '(c, x) := p in
+  match c with 0 => RPut (x mod 2 ^ w) | 1 => RGet | 2 => RClear | _ => ROverride (negb (x =? 0)) end.
+Fixpoint ring_run (r : ring) (ops : list rop) : list val :=
+  match ops with
+  | [] => []
+  | o :: t => let '(r', v) := ring_step r o in
+              [VN v; VN (N.of_nat (ring_size r')); vbool (ring_empty r'); vbool (ring_full r');
+               VL (map VN (ring_iter r' false)); VL (map VN (ring_iter r' true))] ++ ring_run r' t
+  end.
+Definition run_ring (op : string) (a : list val) : list val :=
+  if String.eqb op "ring.hist" then
+    if argN 0 a =? 0 then [VS "skip"] else
+    ring_run (ring_init (N.to_nat (argN 0 a))) (map (rop_decode (argN 1 a)) (pairs (argLN 2 a)))
+  else [VS "unknown-op"].
+
 Definition prefix_of (p s : string) : bool := String.prefix p s.
 
 Definition dispatch (op : string) (a : list val) : list val :=
   if prefix_of "crc." op then run_crc op a
   else if prefix_of "bb." op then run_bb op a
   else if prefix_of "vi." op then run_vi op a
+  else if prefix_of "ring." op then run_ring op a
   else [VS "unknown-op"].
